@@ -248,5 +248,13 @@ func init() {
 			fs, _, _, _ := c03Run(decode[c03Case](raw))
 			return fs
 		},
+		GoTest: func(raw json.RawMessage) string {
+			cs := decode[c03Case](raw)
+			ops := cs.Ops
+			if !cs.Directed {
+				ops = append(c03Prefix(cs), cs.Ops...)
+			}
+			return worldGoTest(cs.Type, cs.C, ops)
+		},
 	})
 }
